@@ -352,9 +352,9 @@ func VerifC01Cursor() {
 		case 0:
 			vx.HideCursor()
 		case 1:
-			vx.ShowCursor(2*zzverif.Choose("ccol", 2), zzverif.Choose("crow", 2), CursorStyle(2+3*zzverif.Choose("shape", 2)))
+			vx.ShowCursor(2*zzverif.Choose("ccol", 2), zzverif.Choose("crow", 2), []CursorStyle{CursorDefault, CursorBlock, CursorBeamBlinking}[zzverif.Choose("shape", 3)])
 		case 2: // a widget shows the cursor, a later one hides it again
-			vx.ShowCursor(2*zzverif.Choose("ccol", 2), zzverif.Choose("crow", 2), CursorStyle(2+3*zzverif.Choose("shape", 2)))
+			vx.ShowCursor(2*zzverif.Choose("ccol", 2), zzverif.Choose("crow", 2), []CursorStyle{CursorDefault, CursorBlock, CursorBeamBlinking}[zzverif.Choose("shape", 3)])
 			vx.HideCursor()
 		}
 		verifFlush(vx, con, t, f == 0 || zzverif.Bool("refresh"))
